@@ -200,3 +200,12 @@ def wakeup_case(seed, policy="none", episodes=10, nsteps=10, call_limit=60):
         wd(f"episode {it} (policy {policy}): stop()", run.graph.stop)
     _verif.set_controller(None)
     return dict(ok=True, spec=spec, episodes=episodes, wall=time.time() - t0, feats=sorted(rt.spec_features(spec)))
+
+
+def productivity_probe(spec, nsteps=10, ticks=300):
+    """Machine configuration of a graph with generous tick bounds: the check asks the Lean machine (in which every enabled rule may
+    fire) whether the dataflow itself can reach `nsteps` supervisor observations with the runtime's 10 tokens per node. If it cannot,
+    a call that never returns is token starvation of the graph (outside the supported class), not a lost wake-up."""
+    run = rt.AsyncRun(spec)
+    counts = {n["name"]: ticks for n in spec["nodes"]}
+    return dict(cfg=rt.machine_cfg(run, counts, user_steps=nsteps))
